@@ -111,6 +111,11 @@ Definition spec_base (c : rcase) : sstate :=
   mkSS (base_space 0 (b_imports c) (b_funcs c)) (base_space 1 (b_imports c) (b_globals c))
        (base_space 2 (b_imports c) (b_mems c)) (base_import_ids (fun _ => 0) (b_imports c)) true false.
 
+(* import entry k is the one that currently stands for the function / global handle h: no later entry of the same
+   kind was pushed for h *)
+Definition current_entry (imports : list (N * N)) (code h k : N) : bool :=
+  negb (existsb (fun ce => N.eqb (fst ce) code && N.eqb (snd ce) h) (skipn (S (N.to_nat k)) imports)).
+
 Definition spec_step (s : sstate) (o : op) (ret : option N) : sstate :=
   match o, ret with
   | AddLocal x fp, Some r =>
@@ -143,6 +148,10 @@ Definition spec_step (s : sstate) (o : op) (ret : option N) : sstate :=
   | ImportToLocal k fp, _ =>
       match nthN (ss_imports s) k with
       | Some (0, fid) =>
+          (* a stale ImportsID (the function was converted back to an import since: convert_local_fn_to_import pushed a
+             fresh entry for it and entry k is a deleted one) is outside the domain, as in CheckNames.v *)
+          if negb (current_entry (ss_imports s) 0 fid k) then ss_bad s
+          else
           match aget (ss_f s) fid with
           | Some e => if en_imp e && negb (en_dead e) then ss_set s SF (aset (ss_f s) fid (mkEnt fp false false))
                       else ss_bad s
@@ -260,23 +269,12 @@ Definition known_copied (k : rk) (x : sp) (c : rcase) : bool :=
 Definition known_D05 := known_copied KElemExpr SF.
 (* D06 (a deleted added / converted import stayed in the index space) and D26 (a deleted converted original import
    stayed among the locals) are repaired: recalculate_ids drops every deleted item; the classes are gone. *)
-(* D07: replace_import_in_module uses the ImportsID as the FunctionID *)
-Fixpoint d07_go (s : sstate) (h : list op) (rets : list (option N)) : bool :=
-  match h, rets with
-  | o :: h', r :: rets' =>
-      (match o with
-       | ImportToLocal k _ => match nthN (ss_imports s) k with Some (0, fid) => negb (N.eqb fid k) | _ => true end
-       | _ => false
-       end) || d07_go (spec_step s o r) h' rets'
-  | _, _ => false
-  end.
-Definition known_D07 (c : rcase) : bool := d07_go (spec_base c) (h_ops c) (o_rets c).
-(* D24: iterator-level add_global followed by add_imported_global: the returned id collides *)
+(* D07 (replace_import_in_module used the ImportsID as the FunctionID) is repaired: the function is resolved
+   through the import; the class is gone. *)
+(* D24 (iterator-level add_global followed by add_imported_global: the returned id collided) is repaired:
+   ModuleIterator::add_global goes through Module::add_global_internal; the class is gone. *)
 Fixpoint after (p q : op -> bool) (h : list op) : bool :=
   match h with [] => false | o :: h' => (p o && existsb q h') || after p q h' end.
-Definition is_itadd o := match o with ItAddGlobal _ => true | _ => false end.
-Definition is_addimp_g o := match o with AddImport SG _ => true | _ => false end.
-Definition known_D24 (c : rcase) : bool := after is_itadd is_addimp_g (h_ops c).
 Definition is_i2l o := match o with ImportToLocal _ _ => true | _ => false end.
 Definition is_del_f o := match o with Delete SF _ => true | _ => false end.
 (* D01: the id maps are re-applied by a second encode: any non-identity map *)
@@ -293,25 +291,25 @@ Definition binds_ok (x : sp) (c : rcase) : bool := sites_bound c x && valid_ok c
 
 Definition verdict06 (c : rcase) : Util.verdict :=
   (agree c, in_domain c && has_site c SF, binds_ok SF c && live_exact c SF,
-   cls c [K 2 known_D02; K 5 known_D05; K 7 known_D07; K 24 known_D24]).
+   cls c [K 2 known_D02; K 5 known_D05]).
 Definition verdict07 (c : rcase) : Util.verdict :=
   (agree c, in_domain c && has_site c SG, binds_ok SG c && live_exact c SG,
-   cls c [K 2 known_D02; K 5 known_D05; K 24 known_D24; K 7 known_D07]).
+   cls c [K 2 known_D02; K 5 known_D05]).
 Definition verdict08 (c : rcase) : Util.verdict :=
   (agree c, in_domain c && has_site c SM, binds_ok SM c && live_exact c SM,
-   cls c [K 2 known_D02; K 5 known_D05; K 24 known_D24; K 7 known_D07]).
+   cls c [K 2 known_D02; K 5 known_D05]).
 Definition is_delete o := match o with Delete _ _ | DeleteExport _ => true | _ => false end.
 Definition verdict09 (c : rcase) : Util.verdict :=
   (agree c, in_domain c && hist_has c is_delete,
    forallb (fun x => sites_bound c x && live_exact c x) [SF; SG; SM] && valid_ok c && negb (ss_coll (spec_final c)),
-   cls c [K 2 known_D02; K 5 known_D05; K 24 known_D24; K 7 known_D07]).
+   cls c [K 2 known_D02; K 5 known_D05]).
 Definition verdict10 (c : rcase) : Util.verdict :=
   (agree c, in_domain c && hist_has c is_i2l, binds_ok SF c && live_exact c SF,
-   cls c [K 2 known_D02; K 5 known_D05; K 7 known_D07; K 24 known_D24]).
+   cls c [K 2 known_D02; K 5 known_D05]).
 Definition is_l2i o := match o with LocalToImport _ _ => true | _ => false end.
 Definition verdict11 (c : rcase) : Util.verdict :=
   (agree c, in_domain c && hist_has c is_l2i, binds_ok SF c && live_exact c SF,
-   cls c [K 2 known_D02; K 5 known_D05; K 7 known_D07; K 24 known_D24]).
+   cls c [K 2 known_D02; K 5 known_D05]).
 Definition verdict05 (c : rcase) : Util.verdict :=
   (agree c, negb (o_api_panic c) && encoded c, o_same2 c, cls c [K 1 known_D01]).
 
